@@ -123,16 +123,21 @@ struct Sys {
     pend: String,
     /// "example" | "lab"
     imp: String,
+    selfadmin: bool,
 }
 
 impl Sys {
     /// `stock`: number of tokens each account gets before the judged history starts
-    fn new(accts: &[&str], preset: &str, stock: &BTreeMap<String, u32>, imp: &str) -> Sys {
+    /// `selfadmin`: the contract is constructed as its own admin ("self"), the way a self-administered controller is;
+    /// nobody can then authorize in the admin's name except through mocked entries for the contract's address
+    fn new(accts: &[&str], preset: &str, stock: &BTreeMap<String, u32>, imp: &str, selfadmin: bool) -> Sys {
         let e = new_env(&LedgerCfg::default());
-        let names = Names::new(&e, accts);
-        let a = names.get("a");
+        let mut names = Names::new(&e, accts);
+        let at = <Address as soroban_sdk::testutils::Address>::generate(&e);
+        names.insert("self", at.clone());
+        let a = if selfadmin { at.clone() } else { names.get("a") };
         let ctor = (SStr::from_str(&e, "u"), SStr::from_str(&e, "n"), SStr::from_str(&e, "s"), a.clone());
-        let c = if imp == "lab" { e.register(lab::Lab, ctor) } else { e.register(nftac::ExampleContract, ctor) };
+        let c = if imp == "lab" { e.register_at(&at, lab::Lab, ctor) } else { e.register_at(&at, nftac::ExampleContract, ctor) };
         let mut sys = Sys {
             e,
             names,
@@ -142,8 +147,11 @@ impl Sys {
             stock: BTreeMap::new(),
             pend: "none".into(),
             imp: imp.to_string(),
+            selfadmin,
         };
-        sys.setup(preset, stock);
+        if !selfadmin {
+            sys.setup(preset, stock);
+        }
         sys
     }
 
@@ -360,7 +368,7 @@ impl Sys {
 /// The reset op minus "op" comes back as `cfg` when a violation is replayed.
 fn reset_event(sys: &Sys, preset: &str, stock: i64) -> Value {
     json!({"op": {"op": "reset", "acct": "none", "role": "none", "arole": "none", "caller": "none", "auth": [],
-                  "preset": preset, "accts": sys.accts.len(), "stock": stock, "imp": sys.imp},
+                  "preset": preset, "accts": sys.accts.len(), "stock": stock, "imp": sys.imp, "selfadmin": sys.selfadmin},
            "now": seq(&sys.e), "res": "ok", "err": 0, "obs": sys.obs()})
 }
 
@@ -456,7 +464,8 @@ fn main() {
                 // TLC's behaviours alternate between the example and the trait-implemented entry points
                 let imp = b.cfg.get("imp").and_then(|v| v.as_str()).map(|x| x.to_string())
                     .unwrap_or_else(|| if bi % 2 == 1 { "lab".into() } else { "example".into() });
-                let mut sys = Sys::new(accts, &preset, &stock, &imp);
+                let selfadmin = b.cfg.get("selfadmin").and_then(|v| v.as_bool()).unwrap_or(false);
+                let mut sys = Sys::new(accts, &preset, &stock, &imp, selfadmin);
                 t.reset(reset_event(&sys, &preset, k));
                 for op in &b.ops {
                     let ev = sys.step(op);
@@ -472,7 +481,10 @@ fn main() {
             for run in 0..runs {
                 let preset = ["chain", "fresh", "crowd"][run % 3];
                 let stock: BTreeMap<String, u32> = accts.iter().map(|x| (x.to_string(), DRIVE_STOCK)).collect();
-                let mut sys = Sys::new(accts, preset, &stock, if (run / 3) % 2 == 1 { "lab" } else { "example" });
+                // every fifth "fresh" run: the contract is its own admin
+                let selfadmin = preset == "fresh" && (run / 3) % 5 == 4;
+                let stock: BTreeMap<String, u32> = if selfadmin { BTreeMap::new() } else { stock };
+                let mut sys = Sys::new(accts, preset, &stock, if (run / 3) % 2 == 1 { "lab" } else { "example" }, selfadmin);
                 let reset = reset_event(&sys, preset, DRIVE_STOCK as i64);
                 let mut v = view(&reset["obs"]);
                 t.reset(reset);
@@ -542,6 +554,10 @@ fn main() {
                             mk(k, "none", "none", "none", &caller, &gen_auth(&mut r, &caller, &admin, accts))
                         }
                     };
+                    // the contract's own address never signs (it has no __check_auth): a call in its name goes unauthorized
+                    let mut op = op;
+                    let kept: Vec<Value> = op["auth"].as_array().map(|a| a.iter().filter(|x| *x != "self").cloned().collect()).unwrap_or_default();
+                    op["auth"] = json!(kept);
                     let ev = sys.step(&op);
                     v = view(&ev["obs"]);
                     t.step(ev);
